@@ -11,6 +11,9 @@
                 processors: !  Before… fails   ?  Before… returns nil   ^  After… fails   ~  After… returns nil
                             z  LazyInit (definition.LazyInitComponent): appended to the chain as registered, at its sorted
                                position (delegate:51 skips the factory lookup); every other processor is fetched from the factory
+                            w  DECORATING processor: every eager processor the factory creates after it (= behind it in the sorted
+                               raw slice) comes back inside a decorator that has neither Order() nor Priority(); the decorator forwards
+                               every callback, and it is appended at the position of the processor it decorates (delegate:56-60)
 
   in :  `D tok*`                          → SortOrderedComponents:  `p<k>` / `o<k>` / `n<id>` sequence  (`-` = empty)
         `S L tok* P tok* R tok*`          → one start with a probe component:
@@ -33,6 +36,8 @@ structure Tok where
   inst : Bool := false
   smart : Bool := false
   marks : List Char := []
+  /-- the instance in `componentPostProcessors` is a decorator around the registered processor (marker `w` on an earlier one) -/
+  decorated : Bool := false
 
 def parseTok (s : String) (id : Nat) : Option Tok :=
   let cs := s.toList
@@ -94,6 +99,23 @@ def resolveTok (t : Tok) : Option Tok :=
   if t.lazy then some t            -- delegate:51  `_, lazy := processor.(definition.LazyInit)`; lazy: used as registered
   else some t                      -- delegate:52-58  instance of that name from the factory
 
+/-- marker `w`: the processor's PostProcessAfterInitialization decorates post-processor components -/
+def Tok.decorates (t : Tok) : Bool := t.marks.contains 'w'
+
+/-- what SortOrderedComponents WOULD see of the instance that sits in `componentPostProcessors`: a decorator implements
+    neither `Ordered` nor `Priority`.  Nothing in the unchanged delegate asks (the chain is never sorted again). -/
+def Tok.seen (t : Tok) : Part := if t.decorated then .plain else t.part
+
+/-- `resolve` in the presence of decorating processors.  `sorted` = the sorted raw slice the registration loop walks
+    (delegate:49-50).  When the loop reaches an eager `t`, `componentPostProcessors` holds the resolutions of everything
+    before `t` in `sorted`; `GetComponentByName` creates `t` (factory.go:164-215) and runs that chain's
+    PostProcessAfterInitialization over it (delegate:154-171), so `t` comes back decorated iff some processor ahead of it
+    decorates — a decorated decorator still decorates (the decorator forwards the callback).  LazyInit processors are never
+    created, hence never decorated.  The result is appended where `t` stood: same position, other instance. -/
+def resolveIn (sorted : List Tok) (t : Tok) : Option Tok :=
+  if t.lazy then some t
+  else some { t with decorated := (sorted.takeWhile (fun u => u.id != t.id)).any Tok.decorates }
+
 /-- split `L … P … R …` into its three sections -/
 def sections (ws : List String) : Option (List String × List String × List String) :=
   match ws with
@@ -153,7 +175,7 @@ def handle (line : String) : String :=
     | some (ls, ps, rs) =>
       match parseToks ls 0, parseToks ps 0, parseToks rs 0 with
       | some l, some p, some r =>
-        showStart true (startC theSort Tok.part loadRes resolveTok Tok.inst (fun _ => .skip)
+        showStart true (startC theSort Tok.part loadRes (resolveIn (sortOrdered theSort Tok.part p)) Tok.inst (fun _ => .skip)
                    beforeCb afterCb (fun t => t.marks.contains '!') true Tok.smart (fun _ _ => some ()) l p r)
       | _, _, _ => "bad-line"
     | none => "bad-line"
@@ -166,7 +188,7 @@ def handle (line : String) : String :=
     | some (ls, ps, rs) =>
       match parseToks ls 0, parseToks ps 0, parseToks rs 0 with
       | some l, some p, some r =>
-        showStart false (start theSort Tok.part loadRes resolveTok Tok.inst (fun _ => .skip)
+        showStart false (start theSort Tok.part loadRes (resolveIn (sortOrdered theSort Tok.part p)) Tok.inst (fun _ => .skip)
                    beforeCb afterCb (fun t => t.marks.contains '!') l p r)
       | _, _, _ => "bad-line"
     | none => "bad-line"
